@@ -135,6 +135,10 @@ func main() {
 		os.Exit(2)
 	}
 	name := os.Args[1]
+	if name == "__worker" {
+		workerMain()
+		return
+	}
 	fs := flag.NewFlagSet(name, flag.ExitOnError)
 	seed := fs.Int64("seed", 1, "PRNG seed")
 	n := fs.Int("n", 1000, "number of generated cases")
@@ -152,5 +156,6 @@ func main() {
 	}
 	o := NewOut(*out, name, *seed)
 	fn(o, rand.New(rand.NewSource(*seed)), *n, *thorough)
+	stopWorker()
 	o.Close()
 }
